@@ -6,6 +6,7 @@ import (
 	"go/constant"
 	"go/token"
 	"go/types"
+	"golang.org/x/tools/go/ssa"
 	"reflect"
 	"regexp"
 	"sort"
@@ -408,6 +409,7 @@ func CheckC11(c *Ctx) {
 	c.timeLayouts()
 	// whole numbers and booleans: written in the base and with the function the reader parses
 	c.integerCodec(get, set)
+	c.parseThenSet(set)
 	// JSON delimiters
 	c.jsonDelims(info)
 	// the written header and the written cells use the same positions
@@ -1134,3 +1136,69 @@ func (c *Ctx) timeLayouts() {
 
 var floatFormatTerm = regexp.MustCompile(`strconv\.FormatFloat\(method\.Float\(param#0\), \d+, -1, lookup\(load\(global:\w+\), method\.Kind\(param#0\)\)\)`)
 var timeFormatTerm = regexp.MustCompile(`method\.Format\(assert:time\.Time\(method\.Interface\(param#0\)\), param#1\)`)
+
+// parseThenSet: in the functions behind setReflectValue that parse a number or a boolean, the
+// parsed value is stored into the field exactly on the paths on which the parse succeeded (SSA
+// path summaries: a path that calls reflect's Set… carries `err == nil`, a path that does not
+// carries its negation).
+func (c *Ctx) parseThenSet(set *load.FuncInfo) {
+	run := c.Run
+	n := 0
+	for _, f := range c.family(set) {
+		fn := c.ssaFunc(f)
+		if fn == nil {
+			continue
+		}
+		parses := false
+		for _, t := range c.callTerms(f, "strconv") {
+			if strings.HasPrefix(t, "strconv.Parse") {
+				parses = true
+			}
+		}
+		// only the functions that call the parser themselves
+		own := false
+		for _, b := range fn.Blocks {
+			for _, in := range b.Instrs {
+				if call, ok := in.(*ssa.Call); ok {
+					if sc := call.Call.StaticCallee(); sc != nil && sc.Pkg != nil && sc.Pkg.Pkg.Name() == "strconv" && strings.HasPrefix(sc.Name(), "Parse") {
+						own = true
+					}
+				}
+			}
+		}
+		if !parses || !own {
+			continue
+		}
+		n++
+		site := "helper." + f.Fn.Name()
+		paths, ok := ssaPaths(fn)
+		why := ""
+		if !ok {
+			why = "the function has a loop (undecided, fails closed)"
+		}
+		sets := 0
+		for _, p := range paths {
+			hasSet := strings.Contains(p, "call method.Set")
+			okErr := strings.Contains(p, "; (nil == ") || strings.HasPrefix(p, "(nil == ") || strings.Contains(p, " == nil)")
+			neg := strings.Contains(p, "!(nil == ") || strings.Contains(p, "!(") && strings.Contains(p, "== nil)")
+			success := okErr && !neg
+			if hasSet {
+				sets++
+				if !success {
+					why = "the parsed value is stored on a path where the parse failed: " + short(p, 160)
+				}
+			} else if success {
+				why = "on a path where the parse succeeded the value is not stored: " + short(p, 160)
+			}
+		}
+		if why == "" && sets == 0 {
+			why = "the parsed value is never stored into the field"
+		}
+		run.Oblige(why == "")
+		if why != "" {
+			c.violate("codec-agreement/parse-set", site, short(why, 60), f.Decl.Pos(), why)
+		}
+	}
+	run.Count("parse_set_functions", n)
+	run.Floor("parse_set_functions", 4)
+}
